@@ -184,6 +184,32 @@ def run(report: Report, n_cases: int):
         report.count(("gt", repr(out)), True)
         report.hist("gettransform.constructor", type(out).__name__)
     evaluate_corr(report, IMPORTS, "Corr.C16", "gettransform", "gt_case", gcases, gmeta, "gt_agree", "gt_agree")
+    # every transform paint class, built directly (the rotate / skew classes are never emitted by `transformed`, but
+    # colr_to_svg reads them from third-party fonts and breadth_first composes them)
+    tcases, tmeta = [], []
+    rng3 = random.Random(report.seed + 4)
+    leaf = P.PaintGlyph(glyph="g", paint=P.PaintSolid())
+    for i in range(max(60, n_cases // 5)):
+        c = (rng3.randint(-300, 600), rng3.randint(-300, 600))
+        k = i % 10
+        out = [
+            lambda: P.PaintTranslate(paint=leaf, dx=rng3.randint(-500, 500), dy=rng3.randint(-500, 500)),
+            lambda: P.PaintScale(paint=leaf, scaleX=rng3.choice([0.5, 1.5, -1.0]), scaleY=rng3.choice([0.25, 1.25, 1.0])),
+            lambda: P.PaintScaleAroundCenter(paint=leaf, scaleX=rng3.choice([0.5, 1.5, -1.0]), scaleY=rng3.choice([0.25, 1.25]), center=c),
+            lambda: P.PaintScaleUniform(paint=leaf, scale=rng3.choice([0.5, 1.5, 0.75])),
+            lambda: P.PaintScaleUniformAroundCenter(paint=leaf, scale=rng3.choice([0.5, 1.5]), center=c),
+            lambda: P.PaintRotate(paint=leaf, angle=rng3.choice([30, 45, 90, -60, 135, 17.5])),
+            lambda: P.PaintRotateAroundCenter(paint=leaf, angle=rng3.choice([30, 90, -45, 12.25]), center=c),
+            lambda: P.PaintSkew(paint=leaf, xSkewAngle=rng3.choice([0, 15, -20, 33]), ySkewAngle=rng3.choice([0, 10, -15])),
+            lambda: P.PaintSkewAroundCenter(paint=leaf, xSkewAngle=rng3.choice([10, -20, 30]), ySkewAngle=rng3.choice([0, 15, -5]), center=c),
+            lambda: P.PaintTransform(paint=leaf, transform=tuple(float(v) for v in (rng3.choice([1, 0.5]), rng3.choice([0, 0.25]), rng3.choice([0, -0.5]), rng3.choice([1, 2]), rng3.randint(-99, 99), rng3.randint(-99, 99)))),
+        ][k]()
+        g = tuple(float(v) for v in out.gettransform())
+        tcases.append(f"({paintlit(out)}, {afflit(g)})")
+        tmeta.append(dict(function=type(out).__name__ + ".gettransform", paint=paint_json(out), impl_out=[str(v) for v in g]))
+        report.count(("gt-class", repr(out)), True)
+        report.hist("gettransform.class", type(out).__name__)
+    evaluate_corr(report, IMPORTS, "Corr.C16", "gettransform_classes", "gt_case", tcases, tmeta, "gt_close", "gt_close")
     run_serialised(report, n_cases, random.Random(report.seed + 2), P, Affine2D)
     run_otsvg_gradient(report, max(60, n_cases // 6), random.Random(report.seed + 3), P, Affine2D)
 
@@ -413,6 +439,42 @@ def run_otsvg_gradient(report, n, rng, P, Affine2D):
             return
 
 
+def run_fonts(report, rng):
+    """gradient geometry in whole COLRv1 fonts where the glyph's advance is not the configured width (wide and narrow
+    viewBoxes): the affine a gradient is mapped by must be the one its outline is placed by"""
+    from harness import build, e2e
+
+    def src(vb_w, k):
+        cx = vb_w * 0.75
+        return (build.filename_for((0x1F600 + k,)),
+                f'<svg xmlns="http://www.w3.org/2000/svg" viewBox="0 0 {vb_w} 100"><defs>'
+                f'<radialGradient id="r" gradientUnits="userSpaceOnUse" cx="{cx}" cy="50" r="30"><stop offset="0" stop-color="#ff0000"/><stop offset="1" stop-color="#0000ff"/></radialGradient>'
+                f'<linearGradient id="l" gradientUnits="userSpaceOnUse" x1="10" y1="10" x2="{vb_w * 0.4}" y2="30"><stop offset="0" stop-color="#00ff00"/><stop offset="1" stop-color="#ffff00"/></linearGradient>'
+                f'<radialGradient id="o"><stop offset="0" stop-color="#ffffff"/><stop offset="1" stop-color="#000000"/></radialGradient></defs>'
+                f'<path d="M{cx - 30},20 L{cx + 30},20 L{cx + 30},80 L{cx - 30},80 Z" fill="url(#r)"/>'
+                f'<path d="M10,10 L{vb_w * 0.4},10 L{vb_w * 0.4},40 L10,40 Z" fill="url(#l)"/>'
+                f'<path d="M5,60 L{vb_w * 0.3},60 L{vb_w * 0.3},95 L5,95 Z" fill="url(#o)"/></svg>', (0x1F600 + k,))
+
+    srcs = [src(200, 0), src(100, 1), src(50, 2), src(330, 3)]
+    for over in (dict(color_format="glyf_colr_1", upem=1000, ascender=800, descender=-200, width=1000), dict(color_format="glyf_colr_1"),
+                 dict(color_format="cff_colr_1", output_file="Font.otf", upem=1024, ascender=900, descender=-124, width=0)):
+        case = dict(kind="e2e", config={k: str(v) for k, v in over.items()}, sources=[s_[1] for s_ in srcs])
+        try:
+            font, cfg, picos, _ = build.build_inprocess(over, srcs)
+        except Exception as ex:
+            case["error"] = f"{type(ex).__name__}: {ex}"[:1200]
+            report_failure(report, "font_build", case)
+            return
+        probs = []
+        n = e2e.check_colr_glyphs(font, cfg, srcs, picos, probs)
+        report.count(("font", str(over)), True, n)
+        report.hist("fonts.width", over.get("width", "default"))
+        if probs:
+            case["problems"] = [str(p_)[:800] for p_ in probs[:3]]
+            report_failure(report, "font", case)
+            return
+
+
 def main(argv):
     common.setup_env()
     tier = common.tier_from_args(argv)
@@ -421,7 +483,8 @@ def main(argv):
     st = proof_gate(report)
     n = 600 if tier == "quick" else 12000
     model_ready = common.vo_ok("Corr/C16.v")
-    if model_ready:
+    run_fonts(report, random.Random(seed + 9))  # before run(): that one replaces hypot/copysign by exact versions
+    if model_ready and not report.violations:
         run(report, n)
     if not st["proof_ok"]:
         # the proof no longer checks: if the search above found a concrete input it is already
